@@ -1179,10 +1179,20 @@ func run(ctx *xplor.Ctx) {
 		}
 	}
 	if ctx.Replay != nil {
+		var sr slotReplay
+		if json.Unmarshal(ctx.Replay, &sr) == nil && sr.Part == "slots" {
+			slotsReplay(ctx, sr)
+			return
+		}
 		var c caseT
 		must(json.Unmarshal(ctx.Replay, &c))
 		eval(c)
 		return
+	}
+	if ctx.Shard == ctx.NShards-1 {
+		// the slot table is a package global: explored first, then re-initialised for the cases below
+		slotsPart(ctx)
+		contract.VerifC20SlotSet(8, contract.VerifC20ChainServiceSlot(), nil)
 	}
 
 	// coverage of the host API
@@ -1279,7 +1289,7 @@ func main() {
 		ID:    "C20",
 		Level: "exploration",
 		Rule: "The Go host API of package contract (vm.go, vm_callback.go, vm_state.go, internal_operations.go, hook.go, contract.go compiled from the repo text with cgo's C bound to a pure-Go fake) is executed; a contract program is a list of host calls issued from inside the fake vm_pcall. " +
-			"Cases: every exported callback (table regenerated from the //export comments at build time) x every tuple of its per-parameter argument alphabets, raw and under the contract.pcall bracket, plus all ordered pairs over the alphabets cut to their first shapes (first call under pcall), plus every (callback, tuple) under pcall followed by one of three canonical writes (storage, event, transfer). Calls that start another executor are run with an empty callee and with a callee that tries to write (storage, event, transfer). " +
+			"Context slots: every state of the slot table (3..6 slots) reachable by query alloc / free and transaction start / end in the chain-service slot, explored to a fixpoint with the real allocContextSlot / freeContextSlot: a query never gets a slot of transaction execution or an occupied one. Cases: every exported callback (table regenerated from the //export comments at build time) x every tuple of its per-parameter argument alphabets, raw and under the contract.pcall bracket, plus all ordered pairs over the alphabets cut to their first shapes (first call under pcall), plus every (callback, tuple) under pcall followed by one of three canonical writes (storage, event, transfer). Calls that start another executor are run with an empty callee and with a callee that tries to write (storage, event, transfer). " +
 			"Each case runs in 13 context modes on a fresh real state DB (two deployed contracts, user, staked system account): writable controls W, WP (after writes), WC (nested call), W+ (after a view ended); read-only: Q (contract.Query), FD (contract.CheckFeeDelegation), V1 (ABI view function via contract.Execute), VS1/VS2/VS3 (luaViewStart/luaViewEnd depth 1, after an inner view ended, depth 2), VC (view calls other contract), WV (writable calls a view of another contract), QC (query calls other contract). " +
 			"Oracle after every host call in a read-only position: account states, contract storages (buffer + trie root), block-state buffers, staged storages, raw store, event list unchanged (deep digest before/after); no mutation-denoting internal operation recorded without error; no writable SQL transaction in a query; Query/CheckFeeDelegation return with untouched block state and store; state root unchanged over fully read-only executions; a call that changed state in the aligned control run must return an error in the read-only run; view brackets are balanced (luaCheckView) and W+ observes what W observes. distinct_nontrivial = cases in which at least one host call ran in a read-only position and all rules held.",
 		Assumptions: []string{
